@@ -19,7 +19,7 @@ func init() {
 			"or from the response of a copy of the same context; (R6) the query's question/id is only modified on a context copy or under a deferred restore registered before anything else " +
 			"runs; (R7) redirect restores the question in the reply and prepends the CNAME; (R8) the cache key is injective in the question (else a hit echoes another spelling). " +
 			"Arbitrary plugin compositions and miekg's Truncate/Pack are trusted.",
-		Assumptions: []string{"dns.Msg.SetReply copies id and question and sets QR", "dns.Msg.Truncate(size) fits the packed message into size bytes and sets TC when records were dropped", "upstreams echo the question"},
+		Assumptions: []string{"dns.Msg.SetReply copies id and question and sets QR", "dns.Msg.Truncate(size) fits the packed message into size bytes and sets TC when records were dropped", "dns.Msg.Len() is an upper bound of the packed size and Truncate drops nothing when Len() <= size (D51)", "upstreams echo the question"},
 		Run:         runC03,
 	})
 }
@@ -34,6 +34,20 @@ func runC03(c *Ctx) {
 	var execCall, packCall, truncCall *ssa.Call
 	var streamTruncs []*ssa.Call
 	var newCtx *ssa.Call
+	// a truncation site is a dns.Msg.Truncate call or a call of a helper that hands (message, size) on to one (D51)
+	truncIdx := map[*ssa.Call][2]int{}
+	tMsg := func(ci *ssa.Call) ssa.Value {
+		if ix, ok := truncIdx[ci]; ok {
+			return ci.Call.Args[ix[0]]
+		}
+		return ci.Call.Args[0]
+	}
+	tSize := func(ci *ssa.Call) ssa.Value {
+		if ix, ok := truncIdx[ci]; ok {
+			return ci.Call.Args[ix[1]]
+		}
+		return ci.Call.Args[1]
+	}
 	eachInstr(h, func(in ssa.Instruction) {
 		ci, ok := in.(*ssa.Call)
 		if !ok {
@@ -43,9 +57,12 @@ func runC03(c *Ctx) {
 		switch {
 		case ci.Call.IsInvoke() && ci.Call.Method.Name() == "Exec":
 			execCall = ci
-		case n == "(*github.com/miekg/dns.Msg).Truncate":
+		case n == "(*github.com/miekg/dns.Msg).Truncate" || truncHelperOf(ci) != nil:
 			// the UDP truncation takes a computed size; the stream one (D34) the constant maximum message size
-			if _, isConst := constInt(ci.Call.Args[1]); isConst {
+			if th := truncHelperOf(ci); th != nil {
+				truncIdx[ci] = [2]int{th.msgIdx, th.sizeIdx}
+			}
+			if _, isConst := constInt(tSize(ci)); isConst {
 				streamTruncs = append(streamTruncs, ci)
 			} else {
 				truncCall = ci
@@ -62,7 +79,7 @@ func runC03(c *Ctx) {
 	// whose size is a two-way choice on exactly "the query came over UDP"
 	var mergedUDPSize ssa.Value
 	if truncCall != nil && len(streamTruncs) == 0 {
-		if ph, ok := truncCall.Call.Args[1].(*ssa.Phi); ok && len(ph.Edges) == 2 {
+		if ph, ok := tSize(truncCall).(*ssa.Phi); ok && len(ph.Edges) == 2 {
 			var udpV ssa.Value
 			streamOK := false
 			for _, lf := range expandCases(ph, nil, 0) {
@@ -311,7 +328,8 @@ func runC03(c *Ctx) {
 		c.check(good && nRA == 1+len(sites.fallbacks), "ra-forced", instrPos(packCall), "RecursionAvailable = true is the only RA write (besides the fallback reply's own) and dominates packing", "RA is not set on every reply, or is overwritten afterwards")
 	}
 
-	c.rule("R4", "OPT re-attach, then UDP truncation to a size in [512,65507] iff the query came over UDP, then pack", 4)
+	c.rule("R4", "OPT re-attach, then UDP truncation to a size in [512,65507] iff the query came over UDP, then pack; records are dropped only from a reply measured not to fit", 6)
+	checkTruncateMeasured(c, h)
 	{
 		// the append of RespOpt into resp.Extra
 		var optStore ssa.Instruction
@@ -362,7 +380,7 @@ func runC03(c *Ctx) {
 			if mergedUDPSize != nil && extra == "" {
 				udp = true // the choice of the size is what is tied to FromUDP; the call itself runs for every reply
 			}
-			c.check(udp && extra == "" && truncCall.Call.Args[0] == resp, "truncate-iff-udp", instrPos(truncCall), "the packed reply is truncated exactly for UDP queries",
+			c.check(udp && extra == "" && tMsg(truncCall) == resp, "truncate-iff-udp", instrPos(truncCall), "the packed reply is truncated exactly for UDP queries",
 				"truncation is not tied to exactly 'query arrived over UDP' (extra condition: "+extra+") or does not apply to the reply being packed: some UDP replies exceed the size the client advertised")
 			// stream transports (D34): plugins hand over unpacked, uncompressed messages; Truncate(maximum message size) is
 			// what turns compression on when the message does not fit 65535 bytes without it. It runs exactly when the query
@@ -372,7 +390,7 @@ func runC03(c *Ctx) {
 				why := fmt.Sprintf("%d constant-size Truncate calls", len(streamTruncs))
 				if mergedUDPSize != nil {
 					_, packFirst2 := reachAvoiding(packCall, func(x ssa.Instruction) bool { return x == ssa.Instruction(truncCall) }, nil)
-					good = truncCall.Call.Args[0] == resp && !packFirst2
+					good = tMsg(truncCall) == resp && !packFirst2
 					why = "merged Truncate call"
 				} else if good {
 					st := streamTruncs[0]
@@ -391,12 +409,12 @@ func runC03(c *Ctx) {
 						}
 						extra2 = guardText(g)
 					}
-					n, _ := constInt(st.Call.Args[1])
+					n, _ := constInt(tSize(st))
 					_, packFirst2 := reachAvoiding(packCall, func(x ssa.Instruction) bool { return x == ssa.Instruction(st) }, nil)
 					switch {
 					case !notUDP || extra2 != "":
 						good, why = false, "it does not run exactly for non-UDP queries (extra condition: "+extra2+")"
-					case st.Call.Args[0] != resp:
+					case tMsg(st) != resp:
 						good, why = false, "it is not applied to the reply being packed"
 					case n != 65535:
 						good, why = false, fmt.Sprintf("its size is %d, not the maximum message size 65535", n)
@@ -411,7 +429,7 @@ func runC03(c *Ctx) {
 			_, packFirst := reachAvoiding(packCall, func(x ssa.Instruction) bool { return x == ssa.Instruction(truncCall) }, nil)
 			c.check(!packFirst, "truncate-before-pack", instrPos(packCall), "packing comes last", "the reply is packed before it is truncated")
 			// size from getValidUDPSize(ClientOpt()) within [512, 65535]
-			sz := truncCall.Call.Args[1]
+			sz := tSize(truncCall)
 			if mergedUDPSize != nil {
 				sz = mergedUDPSize
 			}
